@@ -11,7 +11,7 @@ namespace QV.Writer
 open QV
 
 /-- what is preserved from `s` to `s'`, relative to a bound `b` (the start of the records) -/
-structure Fr (b : Nat) (s s' : State) : Prop where
+structure Fr (k : Bool) (b : Nat) (s s' : State) : Prop where
   size : s'.octets.size = s.octets.size
   body : ∀ i, i < b → i ≠ 2 → i ≠ 3 → s'.octets[i]? = s.octets[i]?
   o2 : (s'.octets.getD 2 0) &&& 0xF9 = (s.octets.getD 2 0) &&& 0xF9
@@ -19,23 +19,34 @@ structure Fr (b : Nat) (s s' : State) : Prop where
   qd : s'.qdcount = s.qdcount
   rrStart : s'.rrStart = s.rrStart
   cur : b ≤ s'.cursor
+  /-- with `k`: the TSIG slot and the EDNS payload size are preserved too -/
+  keep : k = true → s'.tsig = s.tsig ∧ s'.edns.map (·.payload) = s.edns.map (·.payload)
 
-theorem Fr.refl (b : Nat) (s : State) (h : b ≤ s.cursor) : Fr b s s :=
-  ⟨rfl, fun _ _ _ _ => rfl, rfl, rfl, rfl, rfl, h⟩
+theorem Fr.refl (k : Bool) (b : Nat) (s : State) (h : b ≤ s.cursor) : Fr k b s s :=
+  ⟨rfl, fun _ _ _ _ => rfl, rfl, rfl, rfl, rfl, h, fun _ => ⟨rfl, rfl⟩⟩
 
-theorem Fr.trans {b : Nat} {s s' s'' : State} (h1 : Fr b s s') (h2 : Fr b s' s'') : Fr b s s'' :=
+theorem Fr.trans {k : Bool} {b : Nat} {s s' s'' : State} (h1 : Fr k b s s') (h2 : Fr k b s' s'') : Fr k b s s'' :=
   ⟨h2.size.trans h1.size, fun i a c d => (h2.body i a c d).trans (h1.body i a c d), h2.o2.trans h1.o2,
-   h2.o3.trans h1.o3, h2.qd.trans h1.qd, h2.rrStart.trans h1.rrStart, h2.cur⟩
+   h2.o3.trans h1.o3, h2.qd.trans h1.qd, h2.rrStart.trans h1.rrStart, h2.cur,
+   fun hk => ⟨((h2.keep hk).1).trans (h1.keep hk).1, ((h2.keep hk).2).trans (h1.keep hk).2⟩⟩
+
+theorem Fr.weaken {k : Bool} {b : Nat} {s s' : State} (h : Fr k b s s') : Fr false b s s' :=
+  ⟨h.size, h.body, h.o2, h.o3, h.qd, h.rrStart, h.cur, fun hk => by cases hk⟩
 
 /-- the computation `m`, started in `s` (cursor and `rr_start` at or above `b ≥ 4`), frames -/
-def FramedAt {α} (b : Nat) (m : M α) (s : State) : Prop :=
-  b ≤ s.cursor → b ≤ s.rrStart → Fr b s (m s).2
+def FramedAt {α} (k : Bool) (b : Nat) (m : M α) (s : State) : Prop :=
+  b ≤ s.cursor → b ≤ s.rrStart → Fr k b s (m s).2
 
-def Framed {α} (b : Nat) (m : M α) : Prop := ∀ s, FramedAt b m s
+def Framed {α} (k : Bool) (b : Nat) (m : M α) : Prop := ∀ s, FramedAt k b m s
+
+theorem Framed.weaken {α} {k : Bool} {b : Nat} {m : M α} (h : Framed k b m) : Framed false b m :=
+  fun s hc hr => (h s hc hr).weaken
+
+variable {k : Bool}
 
 theorem framedAt_bind {α β} {b : Nat} {x : M α} {f : α → M β} {s : State}
-    (hx : FramedAt b x s) (hf : b ≤ s.cursor → ∀ a s', x s = (.ok a, s') → FramedAt b (f a) s') :
-    FramedAt b (x >>= f) s := by
+    (hx : FramedAt k b x s) (hf : b ≤ s.cursor → ∀ a s', x s = (.ok a, s') → FramedAt k b (f a) s') :
+    FramedAt k b (x >>= f) s := by
   intro hc hr
   have h1 := hx hc hr
   rw [bind_apply]
@@ -47,112 +58,114 @@ theorem framedAt_bind {α β} {b : Nat} {x : M α} {f : α → M β} {s : State}
   · rw [hxs] at h1; exact h1
   · rw [hxs] at h1; exact h1
 
-theorem framed_bind {α β} {b : Nat} {x : M α} {f : α → M β} (hx : Framed b x) (hf : ∀ a, Framed b (f a)) :
-    Framed b (x >>= f) := fun s => framedAt_bind (hx s) (fun _ a s' _ => hf a s')
+theorem framed_bind {α β} {b : Nat} {x : M α} {f : α → M β} (hx : Framed k b x) (hf : ∀ a, Framed k b (f a)) :
+    Framed k b (x >>= f) := fun s => framedAt_bind (hx s) (fun _ a s' _ => hf a s')
 
-theorem framed_pure {α} (b : Nat) (a : α) : Framed b (pure a : M α) := fun s hc _ => Fr.refl b s hc
-theorem framed_fail {α} (b : Nat) (e : WriterErr) : Framed b (M.fail e : M α) := fun s hc _ => Fr.refl b s hc
-theorem framed_panic {α} (b : Nat) : Framed b (M.panic : M α) := fun s hc _ => Fr.refl b s hc
-theorem framed_get (b : Nat) : Framed b M.get := fun s hc _ => Fr.refl b s hc
+theorem framed_pure {α} (b : Nat) (a : α) : Framed k b (pure a : M α) := fun s hc _ => Fr.refl _ b s hc
+theorem framed_fail {α} (b : Nat) (e : WriterErr) : Framed k b (M.fail e : M α) := fun s hc _ => Fr.refl _ b s hc
+theorem framed_panic {α} (b : Nat) : Framed k b (M.panic : M α) := fun s hc _ => Fr.refl _ b s hc
+theorem framed_get (b : Nat) : Framed k b M.get := fun s hc _ => Fr.refl _ b s hc
 
 /-- a state update that leaves the framed fields alone -/
 theorem framed_modify (b : Nat) (f : State → State)
     (hf : ∀ s, (f s).octets = s.octets ∧ (f s).qdcount = s.qdcount ∧ (f s).rrStart = s.rrStart ∧
-      (b ≤ s.cursor → b ≤ s.rrStart → b ≤ (f s).cursor)) :
-    Framed b (M.modify f) := by
+      (b ≤ s.cursor → b ≤ s.rrStart → b ≤ (f s).cursor) ∧
+      (k = true → (f s).tsig = s.tsig ∧ (f s).edns.map (·.payload) = s.edns.map (·.payload))) :
+    Framed k b (M.modify f) := by
   intro s hc hr
-  obtain ⟨h1, h2, h3, h6⟩ := hf s
-  show Fr b s (f s)
-  exact ⟨by rw [h1], fun _ _ _ _ => by rw [h1], by rw [h1], by rw [h1], h2, h3, h6 hc hr⟩
+  obtain ⟨h1, h2, h3, h6, h7⟩ := hf s
+  show Fr k b s (f s)
+  exact ⟨by rw [h1], fun _ _ _ _ => by rw [h1], by rw [h1], by rw [h1], h2, h3, h6 hc hr, h7⟩
 
-theorem framed_ite {α} (b : Nat) (c : Prop) [Decidable c] (x y : M α) (hx : Framed b x) (hy : Framed b y) :
-    Framed b (if c then x else y) := by
+theorem framed_ite {α} (b : Nat) (c : Prop) [Decidable c] (x y : M α) (hx : Framed k b x) (hy : Framed k b y) :
+    Framed k b (if c then x else y) := by
   split <;> assumption
 
 /-! ### writes at or above the bound -/
 
 theorem fr_writeAt (b : Nat) (hb : 4 ≤ b) (s : State) (pos : Nat) (data : List UInt8) (hp : b ≤ pos) (hc : b ≤ s.cursor) :
-    Fr b s { s with octets := writeAt s.octets pos data } := by
+    Fr k b s { s with octets := writeAt s.octets pos data } := by
   have hget : ∀ i, i < b → (writeAt s.octets pos data)[i]? = s.octets[i]? := by
     intro i hi
     rw [writeAt_getElem?, if_neg (by omega)]
-  refine ⟨writeAt_size _ _ _, fun i hi _ _ => hget i hi, ?_, ?_, rfl, rfl, hc⟩
+  refine ⟨writeAt_size _ _ _, fun i hi _ _ => hget i hi, ?_, ?_, rfl, rfl, hc, fun _ => ⟨rfl, rfl⟩⟩
   · show (writeAt s.octets pos data).getD 2 0 &&& 0xF9 = _
     rw [Array.getD_eq_getD_getElem?, Array.getD_eq_getD_getElem?, hget 2 (by omega)]
   · show (writeAt s.octets pos data).getD 3 0 &&& 0xF0 = _
     rw [Array.getD_eq_getD_getElem?, Array.getD_eq_getD_getElem?, hget 3 (by omega)]
 
 theorem framedAt_write (b : Nat) (hb : 4 ≤ b) (pos : Nat) (data : List UInt8) (s : State) (hp : b ≤ pos) :
-    FramedAt b (write pos data) s := by
+    FramedAt k b (write pos data) s := by
   intro hc _
   unfold write
   split
   · exact fr_writeAt b hb s pos data hp hc
-  · exact Fr.refl b s hc
+  · exact Fr.refl _ b s hc
 
-theorem framed_tryPush (b : Nat) (hb : 4 ≤ b) (data : List UInt8) : Framed b (tryPush data) := by
+theorem framed_tryPush (b : Nat) (hb : 4 ≤ b) (data : List UInt8) : Framed k b (tryPush data) := by
   intro s hc hr
-  rw [tryPush_v0]; unfold V0.tryPush
+  unfold tryPush
   split
-  · exact Fr.refl b s hc
+  · exact Fr.refl _ b s hc
   · split
-    · have := framedAt_write b hb s.cursor data s hc hc hr
+    · have := framedAt_write (k := k) b hb s.cursor data s hc hc hr
       rcases hw : write s.cursor data s with ⟨(a | e | _), s1⟩
       · rw [hw] at this
         simp only
         have hcur : b ≤ s1.cursor := this.cur
         exact ⟨this.size, this.body, this.o2, this.o3, this.qd, this.rrStart,
-          by show b ≤ s1.cursor + data.length; omega⟩
+          by show b ≤ s1.cursor + data.length; omega, this.keep⟩
       · rw [hw] at this; exact this
       · rw [hw] at this; exact this
-    · exact Fr.refl b s hc
+    · exact Fr.refl _ b s hc
 
 
-theorem framed_tryPushU16 (b : Nat) (hb : 4 ≤ b) (v : Nat) : Framed b (tryPushU16 v) := framed_tryPush b hb _
-theorem framed_tryPushU32 (b : Nat) (hb : 4 ≤ b) (v : Nat) : Framed b (tryPushU32 v) := framed_tryPush b hb _
+theorem framed_tryPushU16 (b : Nat) (hb : 4 ≤ b) (v : Nat) : Framed k b (tryPushU16 v) := framed_tryPush b hb _
+theorem framed_tryPushU32 (b : Nat) (hb : 4 ≤ b) (v : Nat) : Framed k b (tryPushU32 v) := framed_tryPush b hb _
 
 /-- an update of ghost / compression bookkeeping fields only -/
 theorem fr_same (b : Nat) (s s' : State) (h1 : s'.octets = s.octets) (h2 : s'.qdcount = s.qdcount)
-    (h3 : s'.rrStart = s.rrStart) (h6 : b ≤ s'.cursor) :
-    Fr b s s' :=
-  ⟨by rw [h1], fun _ _ _ _ => by rw [h1], by rw [h1], by rw [h1], h2, h3, h6⟩
+    (h3 : s'.rrStart = s.rrStart) (h6 : b ≤ s'.cursor)
+    (h7 : k = true → s'.tsig = s.tsig ∧ s'.edns.map (·.payload) = s.edns.map (·.payload)) :
+    Fr k b s s' :=
+  ⟨by rw [h1], fun _ _ _ _ => by rw [h1], by rw [h1], by rw [h1], h2, h3, h6, h7⟩
 
-theorem framed_setCtx (b : Nat) (c : NameCtx) : Framed b (setCtx c) :=
-  fun s hc _ => fr_same b s _ rfl rfl rfl hc
+theorem framed_setCtx (b : Nat) (c : NameCtx) : Framed k b (setCtx c) :=
+  fun s hc _ => fr_same b s _ rfl rfl rfl hc (fun _ => ⟨rfl, rfl⟩)
 
-theorem framed_hvPush (b : Nat) (p : Option Nat) : Framed b (hvPush p) := by
+theorem framed_hvPush (b : Nat) (p : Option Nat) : Framed k b (hvPush p) := by
   intro s hc _
-  show Fr b s (match s.hv with
+  show Fr k b s (match s.hv with
     | some v => if v.length < Gen.HINT_POINTER_VEC_SIZE then { s with hv := some (v ++ [p]) } else s
     | none => s)
   split
   · split
-    · exact fr_same b s _ rfl rfl rfl hc
-    · exact Fr.refl b s hc
-  · exact Fr.refl b s hc
+    · exact fr_same b s _ rfl rfl rfl hc (fun _ => ⟨rfl, rfl⟩)
+    · exact Fr.refl _ b s hc
+  · exact Fr.refl _ b s hc
 
-theorem framed_ghostLabels (b : Nat) (pos : Nat) (ls : List Label) (r : Bool) : Framed b (ghostLabels pos ls r) :=
-  fun s hc _ => fr_same b s _ rfl rfl rfl hc
+theorem framed_ghostLabels (b : Nat) (pos : Nat) (ls : List Label) (r : Bool) : Framed k b (ghostLabels pos ls r) :=
+  fun s hc _ => fr_same b s _ rfl rfl rfl hc (fun _ => ⟨rfl, rfl⟩)
 
-theorem framed_pushPointer (b : Nat) (hb : 4 ≤ b) (p : Nat) : Framed b (pushPointer p) := by
+theorem framed_pushPointer (b : Nat) (hb : 4 ≤ b) (p : Nat) : Framed k b (pushPointer p) := by
   intro s hc hr
-  rw [pushPointer_v0]; unfold V0.pushPointer
-  have := framed_tryPushU16 b hb (49152 + p) s hc hr
+  unfold pushPointer
+  have := framed_tryPushU16 (k := k) b hb (49152 + p) s hc hr
   rcases hw : tryPushU16 (49152 + p) s with ⟨(a | e | _), s1⟩
   · rw [hw] at this
     simp only
-    exact this.trans (fr_same b s1 _ rfl rfl rfl this.cur)
+    exact this.trans (fr_same b s1 _ rfl rfl rfl this.cur (fun _ => ⟨rfl, rfl⟩))
   · rw [hw] at this; exact this
   · rw [hw] at this; exact this
 
-theorem framed_writeUncompressedName (b : Nat) (hb : 4 ≤ b) (n : WName) : Framed b (writeUncompressedName n) := by
+theorem framed_writeUncompressedName (b : Nat) (hb : 4 ≤ b) (n : WName) : Framed k b (writeUncompressedName n) := by
   intro s hc hr
-  rw [writeUncompressedName_v0]; unfold V0.writeUncompressedName
-  have := framed_tryPush b hb n.wire s hc hr
+  unfold writeUncompressedName
+  have := framed_tryPush (k := k) b hb n.wire s hc hr
   rcases hw : tryPush n.wire s with ⟨(a | e | _), s1⟩
   · rw [hw] at this
     simp only
-    have h2 := framed_ghostLabels b s.cursor n.labels true s1 this.cur (by rw [this.rrStart]; exact hr)
+    have h2 := framed_ghostLabels (k := k) b s.cursor n.labels true s1 this.cur (by rw [this.rrStart]; exact hr)
     rcases hg : ghostLabels s.cursor n.labels true s1 with ⟨r, s2⟩
     rw [hg] at h2
     exact this.trans h2
@@ -160,31 +173,31 @@ theorem framed_writeUncompressedName (b : Nat) (hb : 4 ≤ b) (n : WName) : Fram
   · rw [hw] at this; exact this
 
 theorem framed_writeCompressedUnhintedName (b : Nat) (hb : 4 ≤ b) (n : WName) :
-    Framed b (writeCompressedUnhintedName n) := by
+    Framed k b (writeCompressedUnhintedName n) := by
   intro s hc hr
-  rw [writeCompressedUnhintedName_v0]; unfold V0.writeCompressedUnhintedName
+  unfold writeCompressedUnhintedName
   split
-  · exact Fr.refl b s hc
-  · exact Fr.refl b s hc
+  · exact Fr.refl _ b s hc
+  · exact Fr.refl _ b s hc
   · exact framed_writeUncompressedName b hb n s hc hr
   · rename_i m _
     split
-    · have := framed_pushPointer b hb m.priorPointer s hc hr
+    · have := framed_pushPointer (k := k) b hb m.priorPointer s hc hr
       rcases hw : pushPointer m.priorPointer s with ⟨(a | e | _), s1⟩
       · rw [hw] at this; exact this
       · rw [hw] at this; exact this
       · rw [hw] at this; exact this
-    · have h1 := framed_tryPush b hb (n.wireTo m.startColumn) s hc hr
+    · have h1 := framed_tryPush (k := k) b hb (n.wireTo m.startColumn) s hc hr
       rcases hw : tryPush (n.wireTo m.startColumn) s with ⟨(a | e | _), s1⟩
       · rw [hw] at h1
         simp only
-        have h2 := framed_ghostLabels b s.cursor (n.labels.take m.startColumn) false s1 h1.cur
+        have h2 := framed_ghostLabels (k := k) b s.cursor (n.labels.take m.startColumn) false s1 h1.cur
           (by rw [h1.rrStart]; exact hr)
         rcases hg : ghostLabels s.cursor (n.labels.take m.startColumn) false s1 with ⟨r, s2⟩
         rw [hg] at h2
         simp only
         have h12 := h1.trans h2
-        have h3 := framed_pushPointer b hb m.priorPointer s2 h12.cur (by rw [h12.rrStart]; exact hr)
+        have h3 := framed_pushPointer (k := k) b hb m.priorPointer s2 h12.cur (by rw [h12.rrStart]; exact hr)
         rcases hp : pushPointer m.priorPointer s2 with ⟨(a | e | _), s3⟩
         · rw [hp] at h3; exact h12.trans h3
         · rw [hp] at h3; exact h12.trans h3
@@ -192,26 +205,26 @@ theorem framed_writeCompressedUnhintedName (b : Nat) (hb : 4 ≤ b) (n : WName) 
       · rw [hw] at h1; exact h1
       · rw [hw] at h1; exact h1
 
-theorem framed_writeUnhintedName (b : Nat) (hb : 4 ≤ b) (n : WName) : Framed b (writeUnhintedName n) := by
+theorem framed_writeUnhintedName (b : Nat) (hb : 4 ≤ b) (n : WName) : Framed k b (writeUnhintedName n) := by
   intro s hc hr
-  rw [writeUnhintedName_v0]; unfold V0.writeUnhintedName
+  unfold writeUnhintedName
   split
   · exact framed_writeCompressedUnhintedName b hb n s hc hr
   · exact framed_writeUncompressedName b hb n s hc hr
 
-theorem framed_pushHinted (b : Nat) (hb : 4 ≤ b) (p : Prior) : Framed b (pushHinted p) := by
+theorem framed_pushHinted (b : Nat) (hb : 4 ≤ b) (p : Prior) : Framed k b (pushHinted p) := by
   intro s hc hr
-  rw [pushHinted_v0]; unfold V0.pushHinted
-  have := framed_pushPointer b hb p.ptr s hc hr
+  unfold pushHinted
+  have := framed_pushPointer (k := k) b hb p.ptr s hc hr
   rcases hw : pushPointer p.ptr s with ⟨(a | e | _), s1⟩
   · rw [hw] at this; exact this
   · rw [hw] at this; exact this
   · rw [hw] at this; exact this
 
 theorem framed_writeHintedName (b : Nat) (hb : 4 ≤ b) (hint : Hint) (n : WName) :
-    Framed b (writeHintedName hint n) := by
+    Framed k b (writeHintedName hint n) := by
   intro s hc hr
-  rw [writeHintedName_v0]; unfold V0.writeHintedName
+  unfold writeHintedName
   split
   · exact framed_writeUncompressedName b hb n s hc hr
   · split
@@ -235,7 +248,7 @@ theorem framed_writeHintedName (b : Nat) (hb : 4 ≤ b) (hint : Hint) (n : WName
 /-! ### records -/
 
 theorem framed_writeComponents (b : Nat) (hb : 4 ≤ b) : ∀ (ts : List CompType) (rdata : List UInt8),
-    Framed b (writeComponents ts rdata) := by
+    Framed k b (writeComponents ts rdata) := by
   intro ts
   induction ts with
   | nil =>
@@ -255,7 +268,7 @@ theorem framed_writeComponents (b : Nat) (hb : 4 ≤ b) : ∀ (ts : List CompTyp
         refine framed_bind (framed_setCtx b _) fun _ => ?_
         refine framed_bind (framed_writeUnhintedName b hb n) fun p => ?_
         refine framed_bind (framed_setCtx b _) fun _ => ?_
-        refine framed_bind (framed_modify b _ fun s => ⟨rfl, rfl, rfl, fun h _ => h⟩) fun _ => ?_
+        refine framed_bind (framed_modify b _ fun s => ⟨rfl, rfl, rfl, fun h _ => h, fun _ => ⟨rfl, rfl⟩⟩) fun _ => ?_
         refine framed_bind (framed_hvPush b _) fun _ => ?_
         exact ih rest
     | uncompressibleName =>
@@ -266,7 +279,7 @@ theorem framed_writeComponents (b : Nat) (hb : 4 ≤ b) : ∀ (ts : List CompTyp
         refine framed_bind (framed_setCtx b _) fun _ => ?_
         refine framed_bind (framed_writeUncompressedName b hb n) fun p => ?_
         refine framed_bind (framed_setCtx b _) fun _ => ?_
-        refine framed_bind (framed_modify b _ fun s => ⟨rfl, rfl, rfl, fun h _ => h⟩) fun _ => ?_
+        refine framed_bind (framed_modify b _ fun s => ⟨rfl, rfl, rfl, fun h _ => h, fun _ => ⟨rfl, rfl⟩⟩) fun _ => ?_
         refine framed_bind (framed_hvPush b _) fun _ => ?_
         exact ih rest
     | fixedLen k =>
@@ -277,12 +290,12 @@ theorem framed_writeComponents (b : Nat) (hb : 4 ≤ b) : ∀ (ts : List CompTyp
         exact ih _
 
 theorem framed_addRr (b : Nat) (hb : 4 ≤ b) (hint : Hint) (owner : WName) (ty cls ttl : Nat) (rdata : List UInt8) :
-    Framed b (addRr hint owner ty cls ttl rdata) := by
-  rw [addRr_v0]; unfold V0.addRr
+    Framed k b (addRr hint owner ty cls ttl rdata) := by
+  unfold addRr
   refine framed_bind (framed_setCtx b _) fun _ => ?_
   refine framed_bind (framed_writeHintedName b hb hint owner) fun p => ?_
   refine framed_bind (framed_setCtx b _) fun _ => ?_
-  refine framed_bind (framed_modify b _ fun s => ⟨rfl, rfl, rfl, fun h _ => h⟩) fun _ => ?_
+  refine framed_bind (framed_modify b _ fun s => ⟨rfl, rfl, rfl, fun h _ => h, fun _ => ⟨rfl, rfl⟩⟩) fun _ => ?_
   refine framed_bind (framed_tryPushU16 b hb ty) fun _ => ?_
   refine framed_bind (framed_tryPushU16 b hb cls) fun _ => ?_
   refine framed_bind (framed_tryPushU32 b hb ttl) fun _ => ?_
@@ -296,7 +309,7 @@ theorem framed_addRr (b : Nat) (hb : 4 ≤ b) (hint : Hint) (owner : WName) (ty 
   · split
     · exact framed_fail b _ s0
     · refine framedAt_bind (framed_modify b (fun s => { s with cursor := s.cursor + 2 })
-          (fun s => ⟨rfl, rfl, rfl, fun h _ => by show b ≤ s.cursor + 2; omega⟩) s0)
+          (fun s => ⟨rfl, rfl, rfl, fun h _ => by show b ≤ s.cursor + 2; omega, fun _ => ⟨rfl, rfl⟩⟩) s0)
         fun _ _ s1 _ => ?_
       refine framedAt_bind (framed_writeComponents b hb _ _ s1) fun _ _ s2 _ => ?_
       refine framedAt_bind (framed_get b s2) fun _ s3 s4 _ => ?_
@@ -305,7 +318,7 @@ theorem framed_addRr (b : Nat) (hb : 4 ≤ b) (hint : Hint) (owner : WName) (ty 
       · exact framedAt_write b hb s0.cursor _ s4 hc0
 
 theorem framed_addRrset (b : Nat) (hb : 4 ≤ b) (owner : WName) (ty cls ttl : Nat) :
-    ∀ (rds : List (List UInt8)) (hint : Hint) (n : Nat), Framed b (addRrset hint owner ty cls ttl rds n) := by
+    ∀ (rds : List (List UInt8)) (hint : Hint) (n : Nat), Framed k b (addRrset hint owner ty cls ttl rds n) := by
   intro rds
   induction rds with
   | nil => intro hint n; unfold addRrset; exact framed_pure b n
@@ -316,7 +329,7 @@ theorem framed_addRrset (b : Nat) (hb : 4 ≤ b) (owner : WName) (ty cls ttl : N
     exact ih _ _
 
 /-- `with_rollback`: on failure the cursor goes back to where it was (at or above the bound) -/
-theorem framed_withRollback {α} (b : Nat) (f : M α) (hf : Framed b f) : Framed b (withRollback f) := by
+theorem framed_withRollback {α} (b : Nat) (f : M α) (hf : Framed k b f) : Framed k b (withRollback f) := by
   intro s hc hr
   unfold withRollback
   have := hf s hc hr
@@ -324,26 +337,26 @@ theorem framed_withRollback {α} (b : Nat) (f : M α) (hf : Framed b f) : Framed
   · rw [hfs] at this; exact this
   · rw [hfs] at this
     simp only
-    exact this.trans (fr_same b s1 _ rfl rfl rfl hc)
+    exact this.trans (fr_same b s1 _ rfl rfl rfl hc (fun _ => ⟨rfl, rfl⟩))
   · rw [hfs] at this; exact this
 
-theorem framed_changeSection (b : Nat) (sec : RrSection) : Framed b (changeSection sec) := by
+theorem framed_changeSection (b : Nat) (sec : RrSection) : Framed k b (changeSection sec) := by
   intro s hc _
   unfold changeSection
   repeat' split
-  all_goals first | exact Fr.refl b s hc | exact fr_same b s _ rfl rfl rfl hc
+  all_goals first | exact Fr.refl _ b s hc | exact fr_same b s _ rfl rfl rfl hc (fun _ => ⟨rfl, rfl⟩)
 
-theorem framed_setCount (b : Nat) (sec : RrSection) (n : Nat) : Framed b (setCount sec n) := by
+theorem framed_setCount (b : Nat) (sec : RrSection) (n : Nat) : Framed k b (setCount sec n) := by
   intro s hc _
-  show Fr b s (match sec with
+  show Fr k b s (match sec with
     | .answer => { s with ancount := n }
     | .authority => { s with nscount := n }
     | .additional => { s with arcount := n })
-  cases sec <;> exact fr_same b s _ rfl rfl rfl hc
+  cases sec <;> exact fr_same b s _ rfl rfl rfl hc (fun _ => ⟨rfl, rfl⟩)
 
 theorem framed_addRrOp (b : Nat) (hb : 4 ≤ b) (sec : RrSection) (hint : Hint) (owner : WName) (ty cls ttlRaw : Nat)
-    (rdata : List UInt8) : Framed b (addRrOp sec hint owner ty cls ttlRaw rdata) := by
-  rw [addRrOp_v0]; unfold V0.addRrOp
+    (rdata : List UInt8) : Framed k b (addRrOp sec hint owner ty cls ttlRaw rdata) := by
+  unfold addRrOp
   apply framed_withRollback
   refine framed_bind (framed_changeSection b sec) fun _ => ?_
   refine framed_bind (framed_addRr b hb _ _ _ _ _ _) fun _ => ?_
@@ -353,8 +366,8 @@ theorem framed_addRrOp (b : Nat) (hb : 4 ≤ b) (sec : RrSection) (hint : Hint) 
   · exact framed_setCount b _ _
 
 theorem framed_addRrsetOp (b : Nat) (hb : 4 ≤ b) (sec : RrSection) (hint : Hint) (owner : WName) (ty cls ttlRaw : Nat)
-    (rdatas : List (List UInt8)) : Framed b (addRrsetOp sec hint owner ty cls ttlRaw rdatas) := by
-  rw [addRrsetOp_v0]; unfold V0.addRrsetOp
+    (rdatas : List (List UInt8)) : Framed k b (addRrsetOp sec hint owner ty cls ttlRaw rdatas) := by
+  unfold addRrsetOp
   apply framed_withRollback
   refine framed_bind (framed_changeSection b sec) fun _ => ?_
   refine framed_bind (framed_addRrset b hb _ _ _ _ _ _ _) fun n => ?_
@@ -366,8 +379,8 @@ theorem framed_addRrsetOp (b : Nat) (hb : 4 ≤ b) (sec : RrSection) (hint : Hin
     · exact framed_setCount b _ _
 
 /-- `clear_rrs`: the cursor returns to `rr_start` -/
-theorem framed_clearRrs (b : Nat) : Framed b clearRrs :=
-  fun s _ hr => fr_same b s _ rfl rfl rfl hr
+theorem framed_clearRrs (b : Nat) : Framed k b clearRrs :=
+  fun s _ hr => fr_same b s _ rfl rfl rfl hr (fun _ => ⟨rfl, rfl⟩)
 
 /-! ### AA, TC, RCODE -/
 
@@ -383,7 +396,7 @@ theorem rcode_mask : ∀ x : UInt8, ∀ r : Fin 16,
 /-- a header-octet update that keeps the masked bits of octets 2 and 3 -/
 theorem framed_setHdr (b : Nat) (hb : 4 ≤ b) (i : Nat) (f : UInt8 → UInt8)
     (hi : i = 2 ∨ i = 3) (h2 : i = 2 → ∀ x, f x &&& 0xF9 = x &&& 0xF9) (h3 : i = 3 → ∀ x, f x &&& 0xF0 = x &&& 0xF0) :
-    Framed b (setHdr i f) := by
+    Framed k b (setHdr i f) := by
   intro s hc _
   unfold setHdr
   split
@@ -393,7 +406,7 @@ theorem framed_setHdr (b : Nat) (hb : 4 ≤ b) (i : Nat) (f : UInt8 → UInt8)
       rw [Array.getElem?_set]; simp [Ne.symm hj]
     have hself : (s.octets.set i (f s.octets[i])).getD i 0 = f (s.octets.getD i 0) := by
       simp [Array.getD, hlt]
-    refine ⟨by simp, fun j _ j2 j3 => hget j (by rcases hi with rfl | rfl <;> assumption), ?_, ?_, rfl, rfl, hc⟩
+    refine ⟨by simp, fun j _ j2 j3 => hget j (by rcases hi with rfl | rfl <;> assumption), ?_, ?_, rfl, rfl, hc, fun _ => ⟨rfl, rfl⟩⟩
     · rcases hi with rfl | rfl
       · show (s.octets.set 2 _).getD 2 0 &&& 0xF9 = _
         rw [hself, h2 rfl]
@@ -404,16 +417,16 @@ theorem framed_setHdr (b : Nat) (hb : 4 ≤ b) (i : Nat) (f : UInt8 → UInt8)
         rw [Array.getD_eq_getD_getElem?, hget 3 (by omega), ← Array.getD_eq_getD_getElem?]
       · show (s.octets.set 3 _).getD 3 0 &&& 0xF0 = _
         rw [hself, h3 rfl]
-  · exact Fr.refl b s hc
+  · exact Fr.refl _ b s hc
 
-theorem framed_setAa (b : Nat) (hb : 4 ≤ b) (v : Bool) : Framed b (setAa v) := by
+theorem framed_setAa (b : Nat) (hb : 4 ≤ b) (v : Bool) : Framed k b (setAa v) := by
   unfold setAa setBit
   refine framed_setHdr b hb _ _ (Or.inl rfl) (fun _ x => ?_) (fun h => by cases h)
   cases v
   · exact (and_masks x).2.1
   · exact (and_masks x).1
 
-theorem framed_setTc (b : Nat) (hb : 4 ≤ b) (v : Bool) : Framed b (setTc v) := by
+theorem framed_setTc (b : Nat) (hb : 4 ≤ b) (v : Bool) : Framed k b (setTc v) := by
   unfold setTc setBit
   refine framed_setHdr b hb _ _ (Or.inl rfl) (fun _ x => ?_) (fun h => by cases h)
   cases v
@@ -421,61 +434,62 @@ theorem framed_setTc (b : Nat) (hb : 4 ≤ b) (v : Bool) : Framed b (setTc v) :=
   · exact (and_masks x).2.2.1
 
 /-- `set_rcode` with an RCODE below 16 (every `Rcode` is) -/
-theorem framed_setRcode (b : Nat) (hb : 4 ≤ b) (rc : Nat) (hrc : rc < 16) : Framed b (setRcode rc) := by
+theorem framed_setRcode (b : Nat) (hb : 4 ≤ b) (rc : Nat) (hrc : rc < 16) : Framed k b (setRcode rc) := by
   unfold setRcode
   refine framed_bind (framed_setHdr b hb _ _ (Or.inr rfl) (fun h => by cases h) (fun _ x => rcode_mask x ⟨rc, hrc⟩))
     fun _ => ?_
   intro s hc _
-  show Fr b s (match s.edns with
+  show Fr k b s (match s.edns with
     | some e => { s with edns := some { e with upper := 0 } }
     | none => s)
   cases he : s.edns with
-  | none => exact Fr.refl b s hc
-  | some e => exact fr_same b s _ rfl rfl rfl hc
+  | none => exact Fr.refl _ b s hc
+  | some e => exact fr_same b s _ rfl rfl rfl hc (fun _ => ⟨rfl, by simp [he]⟩)
 
 
 /-! ### the EDNS / TSIG / limit operations of the scan -/
 
-theorem framed_setEdns (b : Nat) (payload : Nat) : Framed b (setEdns payload) := by
+theorem framed_setEdns (b : Nat) (payload : Nat) : Framed false b (setEdns payload) := by
   intro s hc _
   unfold setEdns
   repeat' split
-  all_goals first | exact Fr.refl b s hc | exact fr_same b s _ rfl rfl rfl hc
+  all_goals first | exact Fr.refl _ b s hc | exact fr_same b s _ rfl rfl rfl hc (fun h => by cases h)
 
-theorem framed_setLimit (b : Nat) (nl : Nat) : Framed b (setLimit nl) := by
+theorem framed_setLimit (b : Nat) (nl : Nat) : Framed false b (setLimit nl) := by
   intro s hc _
   unfold setLimit
   split
   · dsimp only
     split
-    · exact Fr.refl b s hc
-    · exact fr_same b s _ rfl rfl rfl hc
+    · exact Fr.refl _ b s hc
+    · exact fr_same b s _ rfl rfl rfl hc (fun h => by cases h)
   · split
-    · exact Fr.refl b s hc
+    · exact Fr.refl _ b s hc
     · dsimp only
       repeat' split
-      all_goals first | exact Fr.refl b s hc | exact fr_same b s _ rfl rfl rfl hc
+      all_goals first | exact Fr.refl _ b s hc | exact fr_same b s _ rfl rfl rfl hc (fun h => by cases h)
 
-theorem framed_setTsig (b : Nat) (mode : TsigMode) (rr : TsigRr) : Framed b (setTsig mode rr) := by
+theorem framed_setTsig (b : Nat) (mode : TsigMode) (rr : TsigRr) : Framed false b (setTsig mode rr) := by
   intro s hc _
-  rw [setTsig_v0]; unfold V0.setTsig
+  unfold setTsig
   split
-  · exact Fr.refl b s hc
+  · exact Fr.refl _ b s hc
   · dsimp only
     repeat' split
-    all_goals first | exact Fr.refl b s hc | exact fr_same b s _ rfl rfl rfl hc
+    all_goals first | exact Fr.refl _ b s hc | exact fr_same b s _ rfl rfl rfl hc (fun h => by cases h)
 
 theorem xrcode_mask : ∀ x y : UInt8, ((x &&& ~~~15) ||| (y &&& 15)) &&& 0xF0 = x &&& 0xF0 := by
   apply Wire.forall_uint8; intro n hn
   apply Wire.forall_uint8; revert n; decide +kernel
 
-theorem framed_setExtendedRcode (b : Nat) (hb : 4 ≤ b) (raw : Nat) : Framed b (setExtendedRcode raw) := by
+theorem framed_setExtendedRcode (b : Nat) (hb : 4 ≤ b) (raw : Nat) : Framed k b (setExtendedRcode raw) := by
   intro s hc hr
-  rw [setExtendedRcode_v0]; unfold V0.setExtendedRcode
+  unfold setExtendedRcode
   split
-  · split
-    · exact Fr.refl b s hc
-    · have := framed_setHdr b hb Gen.RCODE_BYTE
+  · rename_i e0 hedns
+    split
+    · exact Fr.refl _ b s hc
+    · have := framed_setHdr (k := k) b hb Gen.RCODE_BYTE
         (fun b => (b &&& ~~~ (UInt8.ofNat Gen.RCODE_MASK)) ||| (UInt8.ofNat (raw % 256) &&& UInt8.ofNat Gen.RCODE_MASK))
         (Or.inr rfl) (fun h => by cases h) (fun _ x => xrcode_mask x _) s hc hr
       rcases hh : setHdr Gen.RCODE_BYTE
@@ -483,12 +497,14 @@ theorem framed_setExtendedRcode (b : Nat) (hb : 4 ≤ b) (raw : Nat) : Framed b 
         with ⟨(a | e | _), s1⟩
       · rw [hh] at this
         simp only
-        exact this.trans (fr_same b s1 _ rfl rfl rfl this.cur)
+        have hk1 : Fr k b s s1 := this
+        exact this.trans (fr_same b s1 _ rfl rfl rfl this.cur
+          (fun hk => ⟨rfl, by rw [(hk1.keep hk).2, hedns]; rfl⟩))
       · rw [hh] at this; exact this
       · rw [hh] at this; exact this
-  · exact Fr.refl b s hc
+  · exact Fr.refl _ b s hc
 
-theorem framed_unwrap {α} (b : Nat) (m : M α) (h : Framed b m) : Framed b (unwrap m) := by
+theorem framed_unwrap {α} (b : Nat) (m : M α) (h : Framed k b m) : Framed k b (unwrap m) := by
   intro s hc hr
   have := h s hc hr
   unfold unwrap
@@ -530,27 +546,27 @@ theorem finishWithMac_eq (macFn : Tsig → List UInt8 → List UInt8) (s : State
       (do write Gen.QDCOUNT_START (u16be s.qdcount); write Gen.ANCOUNT_START (u16be s.ancount)
           write Gen.NSCOUNT_START (u16be s.nscount); write Gen.ARCOUNT_START (u16be s.arcount)
           finishEdnsPart s.edns; finishTsigPart macFn s.tsig) s := by
-  rw [finishWithMac_v0]; unfold V0.finishWithMac
+  unfold finishWithMac
   rw [bind_ok (get_apply s)]
   generalize s.edns = e
   generalize s.tsig = t
   cases e <;> rfl
 
-theorem framed_finishEdnsPart (b : Nat) (hb : 4 ≤ b) (e : Option Edns) : Framed b (finishEdnsPart e) := by
+theorem framed_finishEdnsPart (b : Nat) (hb : 4 ≤ b) (e : Option Edns) : Framed k b (finishEdnsPart e) := by
   unfold finishEdnsPart
   split
-  · exact framed_bind (framed_modify b _ fun s => ⟨rfl, rfl, rfl, fun h _ => h⟩) fun _ =>
+  · exact framed_bind (framed_modify b _ fun s => ⟨rfl, rfl, rfl, fun h _ => h, fun _ => ⟨rfl, rfl⟩⟩) fun _ =>
       framed_unwrap b _ (framed_addRr b hb _ _ _ _ _ _)
   · exact framed_pure b ()
 
 theorem framed_finishTsigPart (b : Nat) (hb : 4 ≤ b) (macFn : Tsig → List UInt8 → List UInt8) (t : Option Tsig) :
-    Framed b (finishTsigPart macFn t) := by
+    Framed false b (finishTsigPart macFn t) := by
   unfold finishTsigPart
   split
   · refine framed_bind (framed_get b) fun s1 => ?_
     split
     · exact framed_panic b
-    · refine framed_bind (framed_modify b _ fun s => ⟨rfl, rfl, rfl, fun h _ => h⟩) fun _ => ?_
+    · refine framed_bind (framed_modify b _ fun s => ⟨rfl, rfl, rfl, fun h _ => h, fun h => by cases h⟩) fun _ => ?_
       refine framed_bind (framed_unwrap b _ (framed_addRr b hb _ _ _ _ _ _)) fun _ => ?_
       exact framed_bind (framed_get b) fun s2 => framed_pure b _
   · exact framed_bind (framed_get b) fun s2 => framed_pure b _
@@ -610,7 +626,7 @@ theorem finish_frame (b : Nat) (hb : 12 ≤ b) (s : State) (macFn : Tsig → Lis
     · rw [writeAt_getElem?, if_neg (by rw [u16be_length]; omega), writeAt_getElem?, if_neg (by rw [u16be_length]; omega),
         writeAt_getElem?, if_neg (by rw [u16be_length]; omega), writeAt_getElem?, if_pos (by rw [u16be_length]; omega)]
   -- the EDNS and TSIG parts frame
-  have hfr := framedAt_bind (framed_finishEdnsPart b (by omega) s.edns s4)
+  have hfr := framedAt_bind ((framed_finishEdnsPart (k := false) b (by omega) s.edns) s4)
     (fun _ _ s' _ => framed_finishTsigPart b (by omega) macFn s.tsig s') (by rw [hc4]; exact hc) (by rw [hr4]; exact hr)
   rcases hres : (finishEdnsPart s.edns >>= fun _ => finishTsigPart macFn s.tsig) s4 with ⟨(r | e | _), s'⟩
   · rw [hres] at h hfr
@@ -618,7 +634,7 @@ theorem finish_frame (b : Nat) (hb : 12 ≤ b) (s : State) (macFn : Tsig → Lis
     have hbytes : bytes = s'.octets.extract 0 len := by
       simp only [Out.ok.injEq, Prod.mk.injEq] at h
       exact h.1.symm
-    have hfr' : Fr b s4 s' := hfr
+    have hfr' : Fr false b s4 s' := hfr
     -- the returned length is the final cursor
     have hlen : len = s'.cursor := by
       rw [bind_apply] at hres
